@@ -1,5 +1,5 @@
 SPECIFICATION Spec
 CONSTANTS
   Dev = {}
-  LastBy = "index"
+  LastBy = "identity"
 CHECK_DEADLOCK FALSE
